@@ -353,6 +353,39 @@ def r6_render(ctx):
                        'formats a value of type %s through Display/Debug inside the renderer%s' % (t.get('ga'), '' if not hit else ': a nested type bypasses the RenderConfig'),
                        nontrivial=bool(hit))
     ctx.floor('C17.R6', 'format arguments inside the renderer (positive control)', n, 8)
+    # one-element tuples: `(T)` is T in parentheses, so the Tuple arm must emit a comma when there is exactly one element
+    main = ctx.fb.body(CR, fns[0])
+    sws = [x for x in enum_switches(main, T + 'Type')] if main is not None else []
+    if ctx.need('C17.R6', 'match on Type in render_into', sws):
+        arm = switch_arms(main, sws[0][0]).get('Tuple', set())
+        lens = {t['dest']['l'] for bb, t in main.calls() if bb in arm and callee(t) == 'alloc::vec::Vec::len' and not t['dest'].get('p')}
+        commas = [bb for bb, t in main.calls() if bb in arm and (callee(t) or '').startswith('core::fmt::Arguments::from_str')
+                  and any(isinstance(a, dict) and str(a.get('str', '')).strip() == ',' for a in t['args'])]
+        ok = False
+        where = main.loc(sws[0][0])
+        defs = Defs(main)
+        for bb, j, st in main.all_assigns():
+            rv = st['rv']
+            if bb not in arm or rv['k'] != 'bin' or rv['bop'] != 'Eq':
+                continue
+            ops = [rv['a'], rv['b']]
+            one = [o for o in ops if isinstance(o, dict) and o.get('int') == '1']
+            other = [op_place(o) for o in ops if op_place(o) is not None]
+            if not one or not other:
+                continue
+            _, locs = backward_slice(main, other[0]['l'], defs, through_calls=False)
+            if not ((locs | {other[0]['l']}) & lens):
+                continue
+            w = main.term(bb)
+            if not w or w['k'] != 'switch':
+                continue
+            zero = [tg for v, tg in w['ts'] if v == '0']
+            for cb in commas:
+                if cb in main.reachable(w['else'], avoid=[bb]) and zero and cb not in main.reachable(zero[0], avoid=[bb]):
+                    ok = True
+                    where = main.loc(bb, st)
+        ctx.ob('C17.R6', 'one-element-tuple-keeps-its-comma', ok, where,
+               'the Tuple arm writes "," exactly when elements.len() == 1: %s (otherwise `(T,)` is rendered as `(T)`, which parses back as T)' % ok)
 
 
 def r7_length_before_zip(ctx):
